@@ -26,74 +26,47 @@ Section MapButLast.
     end.
 End MapButLast.
 
-Fixpoint mut_lingo (n : node) {struct n} : node :=
+(* [mutg true] = the tree after generate_lingo, [mutg false] = after generate_js *)
+Fixpoint mutg (ml : bool) (n : node) {struct n} : node :=
   match n with
-  | Leaf KSymbol name p flag => Leaf KSymbol name p (if mem_str name CONST_KNOWN_SYMBOLS then false else flag)
+  | Leaf KSymbol name p flag => Leaf KSymbol name p (if ml && mem_str name CONST_KNOWN_SYMBOLS then false else flag)
   | Leaf _ _ _ _ => n
-  | Unary nm p o => Unary nm p (mut_lingo o)
-  | Binary nm p l r => Binary nm p (mut_lingo l) (mut_lingo r)
-  | SpAssign p l r mode => SpAssign p (mut_lingo l) (mut_lingo r) mode
-  | StrOp nm p s e o => StrOp nm p (mut_lingo s) (option_map mut_lingo e) (mut_lingo o)
-  | UStrOp nm p ty o => UStrOp nm p ty (mut_lingo o)
-  | Accessor p o prop => Accessor p (mut_lingo o) prop
+  | Unary nm p o => Unary nm p (mutg ml o)
+  | Binary nm p l r => Binary nm p (mutg ml l) (mutg ml r)
+  | SpAssign p l r mode => SpAssign p (mutg ml l) (mutg ml r) mode
+  | StrOp nm p s e o => StrOp nm p (mutg ml s) (option_map (mutg ml) e) (mutg ml o)
+  | UStrOp nm p ty o => UStrOp nm p ty (mutg ml o)
+  | Accessor p o prop => Accessor p (mutg ml o) prop
   | KeyAccessor _ _ => n
-  | MenuItemAcc p m i => MenuItemAcc p (mut_lingo m) (mut_lingo i)
-  | MenuItemsAcc p m => MenuItemsAcc p (mut_lingo m)
-  | LoadList nm p ops => LoadList nm p (map mut_lingo ops)
-  | ToList p o => ToList p (match o with LoadList nm lp ops => LoadList nm lp (map mut_lingo ops) | _ => o end)
-  | ToDict p o => ToDict p (match o with LoadList nm lp ops => LoadList nm lp (map mut_lingo ops) | _ => o end)
+  | MenuItemAcc p m i => MenuItemAcc p (mutg ml m) (mutg ml i)
+  | MenuItemsAcc p m => MenuItemsAcc p (mutg ml m)
+  | LoadList nm p ops => LoadList nm p (map (mutg ml) ops)
+  | ToList p o => ToList p (match o with LoadList nm lp ops => LoadList nm lp (map (mutg ml) ops) | _ => o end)
+  | ToDict p o => ToDict p (match o with LoadList nm lp ops => LoadList nm lp (map (mutg ml) ops) | _ => o end)
   | Stmt p code =>
-    Stmt p (match mut_lingo code with
-            | Call nm cp params _ it wr => Call nm cp params false it wr
+    Stmt p (match mutg ml code with
+            | Call nm cp params up it wr => Call nm cp params (if ml then false else up) it wr
             | c => c
             end)
   | Call nm p params up it wr =>
     Call nm p (match params with
                | Some (LoadList ln lp ops) =>
-                 (* operands visited: all, or all but the modifier of a sound command *)
-                 Some (LoadList ln lp (gv_update nm (if String.eqb nm "sound" then map_but_last mut_lingo ops
-                                                     else map mut_lingo ops)))
+                 (* operands visited: all, or (Lingo) all but the modifier of a sound command *)
+                 Some (LoadList ln lp (gv_update nm (if ml && String.eqb nm "sound" then map_but_last (mutg ml) ops
+                                                     else map (mutg ml) ops)))
                | other => other
                end) up it wr
-  | CallMethod nm p o params => CallMethod nm p (mut_lingo o) (mut_lingo params)
+  | CallMethod nm p o params => CallMethod nm p (mutg ml o) (mutg ml params)
   | Repeat p e c body ty st en v sg =>
-    Repeat p e (mut_lingo c) (map mut_lingo body) ty
-           (if String.eqb ty "while" then st else option_map mut_lingo st)
-           (if String.eqb ty "for" then option_map mut_lingo en else en) v sg
-  | IfThen p c a b => IfThen p (mut_lingo c) (map mut_lingo a) (map mut_lingo b)
+    Repeat p e (mutg ml c) (map (mutg ml) body) ty
+           (if String.eqb ty "while" then st else option_map (mutg ml) st)
+           (if ml && String.eqb ty "for" then option_map (mutg ml) en else en) v sg
+  | IfThen p c a b => IfThen p (mutg ml c) (map (mutg ml) a) (map (mutg ml) b)
   | Jump _ _ | Jz _ _ _ | ExitRepeat _ => n
-  | Tell p o body => Tell p (mut_lingo o) (map mut_lingo body)
+  | Tell p o body => Tell p (mutg ml o) (map (mutg ml) body)
   end.
-
-Fixpoint mut_js (n : node) {struct n} : node :=
-  match n with
-  | Leaf _ _ _ _ => n
-  | Unary nm p o => Unary nm p (mut_js o)
-  | Binary nm p l r => Binary nm p (mut_js l) (mut_js r)
-  | SpAssign p l r mode => SpAssign p (mut_js l) (mut_js r) mode
-  | StrOp nm p s e o => StrOp nm p (mut_js s) (option_map mut_js e) (mut_js o)
-  | UStrOp nm p ty o => UStrOp nm p ty (mut_js o)
-  | Accessor p o prop => Accessor p (mut_js o) prop
-  | KeyAccessor _ _ => n
-  | MenuItemAcc p m i => MenuItemAcc p (mut_js m) (mut_js i)
-  | MenuItemsAcc p m => MenuItemsAcc p (mut_js m)
-  | LoadList nm p ops => LoadList nm p (map mut_js ops)
-  | ToList p o => ToList p (match o with LoadList nm lp ops => LoadList nm lp (map mut_js ops) | _ => o end)
-  | ToDict p o => ToDict p (match o with LoadList nm lp ops => LoadList nm lp (map mut_js ops) | _ => o end)
-  | Stmt p code => Stmt p (mut_js code)
-  | Call nm p params up it wr =>
-    Call nm p (match params with
-               | Some (LoadList ln lp ops) => Some (LoadList ln lp (gv_update nm (map mut_js ops)))
-               | other => other
-               end) up it wr
-  | CallMethod nm p o params => CallMethod nm p (mut_js o) (mut_js params)
-  | Repeat p e c body ty st en v sg =>
-    Repeat p e (mut_js c) (map mut_js body) ty
-           (if String.eqb ty "while" then st else option_map mut_js st) en v sg
-  | IfThen p c a b => IfThen p (mut_js c) (map mut_js a) (map mut_js b)
-  | Jump _ _ | Jz _ _ _ | ExitRepeat _ => n
-  | Tell p o body => Tell p (mut_js o) (map mut_js body)
-  end.
+Definition mut_lingo := mutg true.
+Definition mut_js := mutg false.
 
 (* statements a script-level generator walks: all but a final exit *)
 Definition mut_stmts (f : node -> node) (sts : list node) : list node :=
